@@ -434,10 +434,56 @@ func checkC20(c *c20Case) error {
 			return nil
 		}
 	}
+	// attribute records the processing-instruction notation cannot hold (open findings): the record and the rest of
+	// its file are lost; the other files' records are still judged
+	affected := map[string]bool{}
 	for _, rec := range exp.mRecords {
-		if a, ok := rec.cur.Node().(node.Attribute); ok && excluded("C20-m-attribute-namespace-in-pi-target") && strings.ContainsAny(a.Space(), "/?#=&%@ ") {
-			// the record of this node (and the rest of its file) is lost
-			st.KnownHit("C20-m-attribute-namespace-in-pi-target")
+		if a, ok := rec.cur.Node().(node.Attribute); ok {
+			if excluded("C20-m-attribute-namespace-in-pi-target") && strings.ContainsAny(a.Space(), "/?#=&%@ ") {
+				st.KnownHit("C20-m-attribute-namespace-in-pi-target")
+				affected[rec.path] = true
+			}
+			if excluded("C20-m-attribute-value-with-pi-end") && strings.Contains(a.AttributeValue(), "?>") {
+				st.KnownHit("C20-m-attribute-value-with-pi-end")
+				affected[rec.path] = true
+			}
+		}
+	}
+	if len(affected) > 0 {
+		if c.N || affected["-"] {
+			return nil // without prefixes the lost records cannot be told apart
+		}
+		for _, in := range c.Args {
+			if strings.Contains(in, ": ") {
+				return nil
+			}
+		}
+		for _, f := range c.Files {
+			if strings.Contains(f.Path, ": ") {
+				return nil
+			}
+		}
+		var keepRec []mRecord
+		prefixes := map[string]bool{}
+		for _, rec := range exp.mRecords {
+			if affected[rec.path] {
+				prefixes[rec.path+": "], prefixes[rec.shown+": "] = true, true
+				continue
+			}
+			keepRec = append(keepRec, rec)
+		}
+		var keepLines []string
+	nextLine:
+		for _, l := range lines {
+			for pre := range prefixes {
+				if strings.HasPrefix(l, pre) {
+					continue nextLine
+				}
+			}
+			keepLines = append(keepLines, l)
+		}
+		exp.mRecords, lines = keepRec, keepLines
+		if len(exp.mRecords) == 0 {
 			return nil
 		}
 	}
@@ -473,6 +519,18 @@ func checkC20(c *c20Case) error {
 		}
 		if excluded("C20-m-newline-in-comment-or-pi") && hasNewlineInCommentOrPI(rec.cur) {
 			st.KnownHit("C20-m-newline-in-comment-or-pi")
+			continue
+		}
+		if xmodel.KindOfCursor(rec.cur) == xmodel.Text {
+			// character data is only data inside an element (white space at top level is not): the
+			// record of a text node must be the content of <w>...</w> that reads back as that text
+			back, err := xsel.ReadXml(strings.NewReader("<w>" + line + "</w>"))
+			if err != nil {
+				return fmt.Errorf("xsel %q: record %d %q does not parse as character data: %v", c.argv(), i, line, err)
+			}
+			if got, want := xsel.GetCursorString(back), xsel.GetCursorString(rec.cur); got != want || len(back.Children()[0].Children()) > 1 {
+				return fmt.Errorf("xsel %q: record %d %q reads back as %q, the selected text node is %q", c.argv(), i, line, got, want)
+			}
 			continue
 		}
 		back, err := xsel.ReadXml(strings.NewReader(line))
@@ -513,7 +571,7 @@ func genCLIFileData(t *rapid.T, kind string, bad bool) []byte {
 	switch kind {
 	case "xml":
 		ev := xmodel.Gen(t, xmodel.GenCfg{MaxDepth: 3, MaxKids: 3, MaxTop: 1, XMLSafe: true, XMLEverywhere: true, Undeclare: true,
-			Names: []string{"a", "b", "c"}, Values: []string{"1", "2", "x y", "<&>", "é", "a\"b", "line\nbreak", " pad ", "10"}})
+			Names: []string{"a", "b", "c"}, Values: []string{"1", "2", "x y", "<&>", "é", "a\"b", "line\nbreak", " pad ", "10", "\n", "\n  ", " ", "\t\n", "a\n", "?>", "]]>", "-->"}})
 		b, _, _, ok := serialise(t, xmodel.Build(ev), true)
 		if !ok {
 			b = []byte("<a/>")
